@@ -729,7 +729,7 @@ PROPS.update({
  "C20": dict(gen=gen_C20, tags=["refine", "wf", "parse", "decode", "ncons"], events=True, level="proof",
              rule="CDTs built from closed polygons (with holes, with dangling edges), open polylines, sharp angles, collinear input and free points; refine with combinations of "
                   "angle limit, min/max area, vertex budget (incl. 0), keep_constraint_edges, exclude_outer_faces, f32/f64; possibly twice. Non-trivial: >= 2 operations.",
-             theorems="Props/C20.v", assumptions=["angle / area guarantees of a completed refinement are not decided (Ruppert's analysis is not formalised)"]),
+             theorems="Props/C20.v", assumptions=["the quality guarantee of a completed refinement is decided per call with a relative tolerance of 1e-9 (f32: 1e-3), not proved"]),
  "C13": dict(gen=gen_C13, tags=["split", "wf", "geo", "ncons", "noncross", "parse", "decode"], events=True, level="proof",
              rule="lattice CDTs and fans of constraints crossed by add_constraint_and_split between random vertex pairs (through vertices, across several constraints, near-parallel, f32), repeated. "
                   "Non-trivial: >= 3 operations.", theorems="Props/C13.v", assumptions=["the rounded position of a split vertex is not compared with the exact intersection"]),
@@ -1873,3 +1873,144 @@ def gen_bulk_nn(quick, thorough):
     return g
 
 PROPS["C15"]["gen"] = gen_union(PROPS["C15"]["gen"], gen_bulk_nn(1600, 8000))
+
+# M4: executable model of constraint insertion without splitting (Tri/AddConstraint.v) compared index-exactly on every addc / tryc / canc
+for _p in ("C04", "C03"):
+    PROPS[_p]["model"] = True
+    PROPS[_p]["tags"] = PROPS[_p]["tags"] + ["corr"]
+
+def gen_addc_model(quick, thorough):
+    """M4: histories for the constraint-insertion model.  Distinct points (vertex index = insertion order), then can_add_constraint /
+    add_constraint / try_add_constraint between chosen vertex pairs, in both directions, repeated (duplicates), a == b, with
+    remove_constraint_edge / removals / insertions in between.  Modes: long (a cloud of 12..50 points and pairs that are far apart: the
+    segment crosses many free edges; later ones are refused), strip (two or three rows: a horizontal constraint crosses every rung, with
+    vertices exactly on the segment), lattice (dense lattice: collinear chains, pieces along existing edges, partly constrained), hull
+    (points in convex position incl. collinear runs on the hull: constraints along and across the hull), cocirc (lattice points of one
+    circle: every legalization test after the rotation is a tie), line (all vertices on one line: degenerate states), fan (a vertex
+    seeing a long chain of points: the conflict region is a fan that must be re-triangulated from both sides)."""
+    import math
+    def g(r, tier):
+        out = []
+        for i in range(n_cases(tier, quick, thorough)):
+            kind, scalar, hint = gen.pick_cfg(r, ("cdt",), 0.08)
+            mode = r.weighted([("long", 30), ("strip", 16), ("lattice", 16), ("hull", 10), ("cocirc", 8), ("line", 6), ("fan", 14)])
+            c = Case("ac%d" % i, "cdt", scalar, hint)
+            c.meta = {"style": "addc-" + mode, "kind": "cdt", "scalar": scalar, "hint": hint}
+            big = tier == "thorough"
+            pts, pairs = [], []
+            if mode == "long":
+                n = r.range(12, 50 if big else 36)
+                W = r.choice([6, 12, 40, 300, 5000]) if scalar == "f64" else r.choice([6, 12, 40, 300])
+                pts = [(r.range(-W, W), r.range(-W, W)) for _ in range(n)]
+            elif mode == "strip":
+                m = r.range(3, 16 if big else 11)
+                H = r.choice([1, 1, 2, 5])
+                rows = r.choice([2, 3])
+                for x in range(m):
+                    pts.append((2 * x + r.choice([0, 0, 1]), H))
+                    pts.append((2 * x + r.choice([0, 0, 1]), -H * r.choice([1, 1, 3])))
+                    if rows == 3 and r.chance(0.3):
+                        pts.append((2 * x, 0))              # exactly on the segment
+                pts += [(-2, 0), (2 * m + 1, 0)]
+                if r.chance(0.4):
+                    pts += [(-3, r.choice([-1, 1]) * H), (2 * m + 3, 0)]
+            elif mode == "lattice":
+                gx, gy = r.range(1, 4), r.range(1, 3)
+                pts = [(x, y) for x in range(-gx, gx + 1) for y in range(-gy, gy + 1) if r.chance(0.85)]
+            elif mode == "hull":
+                n = r.range(5, 16)
+                R = r.choice([10, 100, 1000])
+                for k in range(n):
+                    ang = 2 * math.pi * k / n
+                    pts.append((round(R * math.cos(ang)), round(R * math.sin(ang))))
+                if r.chance(0.5):                           # collinear runs on the hull: a square frame
+                    s = r.range(2, 5)
+                    pts = [(x, y) for x in range(-s, s + 1) for y in range(-s, s + 1) if (abs(x) == s or abs(y) == s) and r.chance(0.8)]
+                for _ in range(r.range(0, 4)):
+                    pts.append((r.range(-2, 2), r.range(-2, 2)))
+            elif mode == "cocirc":
+                pool = _circle_lattice(r.choice([25, 65, 325, 1105, 5 * 13 * 17 * 29]))
+                r.shuffle(pool)
+                pts = pool[:r.range(5, 24)]
+                for _ in range(r.range(0, 3)):
+                    pts.append((r.range(-3, 3), r.range(-3, 3)))
+            elif mode == "line":
+                dx, dy = r.choice([(1, 0), (0, 1), (1, 1), (2, -1)])
+                pts = [(dx * t, dy * t) for t in range(-r.range(1, 5), r.range(1, 6))]
+                if r.chance(0.25):
+                    pts.append((dx - dy * 3, dy + dx * 3))  # leaves the line: a fan of triangles over a collinear chain
+            else:  # fan
+                m = r.range(4, 22 if big else 14)
+                pts = [(0, -r.choice([3, 10, 40]))]
+                prof = r.choice(["flat", "dent", "bump", "rand"])
+                for x in range(-m // 2, m // 2 + 1):
+                    y = {"flat": 0, "dent": abs(x), "bump": -((x * x) // 3), "rand": r.range(0, 4)}[prof]
+                    pts.append((2 * x, 4 + y))
+                pts.append((r.range(-m, m), 60))
+                pts += [(-m - 3, 1), (m + 3, 1)]
+            if mode != "strip" or r.chance(0.5):
+                r.shuffle(pts)
+            seen, P_ = set(), []
+            for q in pts:
+                if q not in seen:
+                    seen.add(q); P_.append(q)
+            pts = P_
+            sc = 1.0
+            if r.chance(0.1):
+                sc = 2.0 ** (r.choice([-20, -3, 7, 40]) if scalar == "f64" else r.choice([-3, 2]))
+            d = 1
+            if r.chance(0.12) and len(pts) >= 3:
+                toks = []
+                for (x, y) in pts:
+                    toks += [bits(x * sc), bits(y * sc), d]; d += 1
+                c.add("bulks", len(pts), *toks)              # stable bulk load keeps the indices
+            else:
+                for (x, y) in pts:
+                    c.ins(x * sc, y * sc, d); d += 1
+            n = len(pts)
+            idx = {q: k for k, q in enumerate(pts)}
+            def far_pair():
+                a = r.below(n)
+                best = max(range(n), key=lambda k: (pts[k][0] - pts[a][0]) ** 2 + (pts[k][1] - pts[a][1]) ** 2 + r.below(3))
+                return a, (best if r.chance(0.6) else r.below(n))
+            nq = r.range(4, 14)
+            last = None
+            for _ in range(nq):
+                w = r.below(100)
+                if last is not None and w < 12:
+                    a, b = last if r.chance(0.5) else (last[1], last[0])       # duplicate / reversed duplicate
+                elif w < 18:
+                    a = r.below(n); b = a                                       # a == b
+                elif mode == "strip" and w < 60:
+                    a, b = idx[(-2, 0)], idx[(2 * m + 1, 0)]
+                    if r.chance(0.3):
+                        a, b = b, a
+                elif mode == "fan" and w < 60:
+                    a, b = idx[(-m - 3, 1)], idx[(m + 3, 1)]
+                    if r.chance(0.3):
+                        a, b = b, a
+                elif mode in ("long", "cocirc", "hull") and w < 70:
+                    a, b = far_pair()
+                else:
+                    a, b = r.below(n), r.below(n)
+                last = (a, b)
+                if r.chance(0.35):
+                    c.add("canc", "v%d" % a, "v%d" % b)
+                c.add(r.choice(["addc", "tryc", "tryc"]), "v%d" % a, "v%d" % b)
+                if r.chance(0.08):
+                    c.add("rmc", "e%d" % r.below(64))
+                if r.chance(0.05):
+                    c.add("rm", "v%d" % r.below(n))
+                    n = max(1, n - 1)
+                    idx = {}
+                    mode = "free"
+                if r.chance(0.05):
+                    c.ins(float(r.range(-5, 5)) * sc, float(r.range(-5, 5)) * sc, d); d += 1
+            out.append(c)
+        return out
+    return g
+
+PROPS["C12"]["gen"] = gen_union(PROPS["C12"]["gen"], gen_addc_model(1200, 12000))
+PROPS["C04"]["gen"] = gen_union(PROPS["C04"]["gen"], gen_addc_model(600, 6000))
+PROPS["C03"]["gen"] = gen_union(PROPS["C03"]["gen"], gen_addc_model(600, 6000))
+
